@@ -98,6 +98,16 @@ CLAIMED = {
         text="TLC checks StepsAreEnvSteps, NoGenerationOnceMet / ReturnOnlyWhenMet (stops in the first generation in which the budget is met), OneFitnessPerGeneration, PopShape, EliteCarried, Inherited and that the fine-grained loop model refines the abstract one; three seeded design defects must be rejected. A stratified subset of 18.7k TLC-enumerated configurations (num_envs vs learn_step, exact / overshot budgets, memories uniform / n-step / PER, tournament + mutation kinds, checkpoints, early stopping) is run through train_off_policy, train_on_policy, train_offline, train_bandits and both multi-agent loops with real agents, buffers, Sampler, TournamentSelection and Mutations on environments that count reset/step; each run's generation / selection / return events are validated by TLC, an exception is a 'compose' violation.",
         note="Trusted: TLC, driver-side class-level wrappers that only log (get_action, learn, test, clone, save_checkpoint), step counting at the vector level, lineage from clone calls, elite identity by fingerprint. For train_offline the step unit is one learn call.",
         design="4/C20"),
+    "C03": dict(
+        technique="TLA+ spec Arch.tla (implementation-shaped successor sets for every @mutation method of MLP, CNN 2d/3d, LSTM, SimBa, ResNet, MultiInput and networks, with guards / fallbacks; Shapes of every parameter tensor) model-checked by TLC + TLC's dumped transition relation executed edge by edge on the real modules and long seeded walks on real networks, every step validated by TLC (Arch_Trace)",
+        text="TLC checks WellFormed, InBounds, StaysInBounds, FeatureMapPositive, MethodsAdvertised, Advertised (guard true => advertised delta, else documented fallback or no change), ShapesTotal for 14 small-bound instances (Direct / Fallback / Stopped step classes must all occur). Every edge of the dumped relations is executed on the real module (explicit arguments or scripted numpy draws), alternately on a fresh clone and in place; seeded walks with default bounds cover all blocks and Q / Rainbow / continuous-Q / value / deterministic / stochastic networks over vector, image, sequence, dict and tuple observations. Per step TLC checks: successor allowed, last_mutation_attr, bounds, feature maps, real shapes = Shapes(post), strict rebuild from init_dict, finite forward of declared shape for batch sizes 1-3.",
+        note="Trusted: TLC, scripting of numpy draws inside the driver, square images, eval-mode forward on seeded probe batches (3 per state).",
+        design="4/C03"),
+    "C04": dict(
+        technique="TLA+ spec Arch.tla (Shapes / Common index ranges: expected provenance of every tensor element across a mutation) model-checked by TLC + the same relation walk on real modules with position-coded weights, provenance decoded and validated by TLC (Arch_Trace)",
+        text="TLC checks ShapesTotal and SurvivorsOverlap (every surviving tensor keeps a non-empty common index range) on all instances. Before every real mutation each parameter element is overwritten with a unique exact code; afterwards the codes are decoded and TLC checks that exactly the cells in the component-wise minimum of old and new shape kept their value (CNN shrink rule on the first two dimensions), that a mutation leaving the architecture unchanged gives bit-equal outputs, and that clone() gives bit-equal outputs on probe batches.",
+        note="Trusted: TLC, float32-exact codes (channel sizes capped at 64 in walks), eval-mode comparisons.",
+        design="4/C04"),
 }
 NOT_YET = "check not built yet in this round (planned, see DESIGN.md section 4)"
 
